@@ -1,3 +1,148 @@
 import Srctools.Wire
-/-! stub driver (echo) — replaced when the property's model exists. -/
-def main : IO Unit := Wire.main fun j => pure j
+import Srctools.Model.B64
+import Srctools.Model.C05
+import Srctools.Gen.Angles
+import Srctools.Gen.Frozen
+/-! Driver for C05 (exact binary64 model + Angle/Vec state machine). Doubles travel as their 64-bit patterns
+(JSON integers), text as arrays of code points.
+
+  {"op":"norm"|"mod1","x":[bits…]}                         → {"r":[bits…]}
+  {"op":"fmt"|"fmtold"|"fmt6","x":[bits…]}                 → {"r":[[cp…]…]}
+  {"op":"parse","s":[[cp…]…]}                              → {"r":[bits|null…]}
+  {"op":"pvs","s":[cp…]}                                   → {"r":[b,b,b]|null}
+  {"op":"arith","f":"add|sub|mul|div|fmod|pymod","a":[…],"b":[…]} → {"r":[bits|null…]}
+  {"op":"seq","ops":[[name,args…]…]}                       → {"obs":[…],"final":[[kind,a,b,c]…]}
+  {"op":"gen"}                                             → translator obligations as evaluated by the model
+-/
+open Lean B64 C05
+
+def bitsOf (j : Json) : Except String Val := do
+  let n ← j.getNat?
+  pure (decode (UInt64.ofNat n))
+
+def bitsList (j : Json) : Except String (List Val) := do
+  let a ← j.getArr?
+  a.toList.mapM bitsOf
+
+def outBits (v : Val) : Json := Json.num (JsonNumber.fromNat (encode v).toNat)
+
+def outOpt : Option Val → Json
+  | some v => outBits v
+  | none => Json.null
+
+def kindCode : Kind → Nat
+  | .ang => 0
+  | .fang => 1
+  | .vec => 2
+  | .fvec => 3
+
+def objJson (o : Obj Val) : Json :=
+  Json.arr #[Json.num (JsonNumber.fromNat (kindCode o.kind)), outBits o.a, outBits o.b, outBits o.c]
+
+def sites := Gen.Angles.sites
+
+def strOf (o : Obj Val) : List Char :=
+  formatFloat o.a ++ ' ' :: formatFloat o.b ++ ' ' :: formatFloat o.c
+
+def optNat (j : Json) : Except String (Option Nat) :=
+  if j.isNull then pure none else do pure (some (← j.getNat?))
+
+/-- one element of a "seq" request → (new state, observation) -/
+def seqStep (st : State Val) (j : Json) : Except String (State Val × Json) := do
+  let a ← j.getArr?
+  let name ← (a[0]!).getStr?
+  let nat (i : Nat) : Except String Nat := (a[i]!).getNat?
+  let bool (i : Nat) : Except String Bool := (a[i]!).getBool?
+  let val (i : Nat) : Except String Val := bitsOf (a[i]!)
+  let fin (r : State Val × Option Nat) : Except String (State Val × Json) :=
+    match r.2 with
+    | none => pure (r.1, Json.null)
+    | some i => pure (r.1, Json.arr #[Json.num (JsonNumber.fromNat i), objJson (r.1[i]!)])
+  let go (op : Op Val) := fin (step b64 sites st op)
+  match name with
+  | "ctor" => go (.ctor (← bool 1) (← bool 2) (← val 3) (← val 4) (← val 5))
+  | "ctorCopy" => go (.ctorCopy (← bool 1) (← nat 2))
+  | "freeze" => go (.freeze (← nat 1))
+  | "thaw" => go (.thaw (← nat 1))
+  | "setProp" => go (.setProp (← nat 1) (← nat 2) (← val 3))
+  | "setItem" => go (.setItem (← nat 1) (← nat 2) (← val 3))
+  | "imul" => go (.imul (← nat 1) (← val 2))
+  | "mulNew" => go (.mulNew (← nat 1) (← val 2))
+  | "toAngle" => go (.toAngle (← optNat (a[1]!)) (← bool 2) (← bitsList (a[3]!)))
+  | "transform" => go (.transform (← nat 1) (← bitsList (a[2]!)))
+  | "vctor" => go (.vctor (← bool 1) (← val 2) (← val 3) (← val 4))
+  | "vset" => go (.vset (← nat 1) (← nat 2) (← val 3))
+  | "vscale" => go (.vscale (← nat 1) (← val 2) (← bool 3))
+  | "vadd" => go (.vadd (← nat 1) (← nat 2) (← bool 3) (← bool 4))
+  | "str" =>
+    match st[(← nat 1)]? with
+    | some o => pure (st, Wire.codesOfStr (strOf o))
+    | none => pure (st, Json.null)
+  | "fromStr" =>
+    -- ["fromStr", frozen, isAngle, [cp…], da, db, dc]
+    let frozen ← bool 1
+    let isAng ← bool 2
+    let s ← Wire.strOfCodes (a[3]!)
+    let (x, y, z) ← match parseVecStr s with
+      | some t => pure t
+      | none => do pure (← val 4, ← val 5, ← val 6)
+    if isAng then go (.ctor frozen false x y z) else go (.vctor frozen x y z)
+  | _ => throw s!"unknown seq op {name}"
+
+def arith (f : String) (x y : Val) : Except String (Option Val) :=
+  match f with
+  | "add" => pure (some (add x y))
+  | "sub" => pure (some (sub x y))
+  | "mul" => pure (some (mul x y))
+  | "div" => pure (div x y)
+  | "fmod" => pure (some (fmod x y))
+  | "pymod" => pure (if y.isZero then none else some (pyMod x y))
+  | _ => throw s!"unknown arith {f}"
+
+def G : FrozenFacts := ⟨Gen.Frozen.classes, Gen.Frozen.stores, Gen.Frozen.helperCalls, Gen.Frozen.returns⟩
+
+def handle (j : Json) : Except String Json := do
+  let op ← j.getObjValAs? String "op"
+  match op with
+  | "norm" => pure (Json.mkObj [("r", Json.arr ((← bitsList (← j.getObjVal? "x")).map (outBits ∘ norm360)).toArray)])
+  | "mod1" => pure (Json.mkObj [("r", Json.arr ((← bitsList (← j.getObjVal? "x")).map (outBits ∘ mod360)).toArray)])
+  | "fmt" => pure (Json.mkObj [("r", Json.arr ((← bitsList (← j.getObjVal? "x")).map (Wire.codesOfStr ∘ formatFloat)).toArray)])
+  | "fmtold" => pure (Json.mkObj [("r", Json.arr ((← bitsList (← j.getObjVal? "x")).map (Wire.codesOfStr ∘ formatFloatOld)).toArray)])
+  | "fmt6" => pure (Json.mkObj [("r", Json.arr ((← bitsList (← j.getObjVal? "x")).map (Wire.codesOfStr ∘ fmt6)).toArray)])
+  | "parse" =>
+    let ss ← (← (← j.getObjVal? "s").getArr?).toList.mapM Wire.strOfCodes
+    pure (Json.mkObj [("r", Json.arr (ss.map (outOpt ∘ parseDec)).toArray)])
+  | "pvs" =>
+    let s ← Wire.strOfCodes (← j.getObjVal? "s")
+    pure (Json.mkObj [("r", match parseVecStr s with
+      | some (x, y, z) => Json.arr #[outBits x, outBits y, outBits z]
+      | none => Json.null)])
+  | "arith" =>
+    let f ← j.getObjValAs? String "f"
+    let xs ← bitsList (← j.getObjVal? "a")
+    let ys ← bitsList (← j.getObjVal? "b")
+    let rs ← (xs.zip ys).mapM fun (x, y) => arith f x y
+    pure (Json.mkObj [("r", Json.arr (rs.map outOpt).toArray)])
+  | "seq" =>
+    let ops ← (← j.getObjVal? "ops").getArr?
+    let mut st : State Val := []
+    let mut obs : Array Json := #[]
+    for o in ops do
+      let (st', ob) ← seqStep st o
+      st := st'
+      obs := obs.push ob
+    pure (Json.mkObj [("obs", Json.arr obs), ("final", Json.arr (st.map objJson).toArray)])
+  | "gen" =>
+    let bad := badAngleSites sites
+    pure (Json.mkObj [
+      ("anglesOK", Json.bool (anglesOK sites)),
+      ("angleSlotsOK", Json.bool (angleSlotsOK Gen.Angles.slots)),
+      ("modelSitesOK", Json.bool (modelSitesOK sites)),
+      ("sitesCovered", Json.bool (sitesCovered sites)),
+      ("badAngleSites", Json.arr (bad.map fun s => Json.str s!"{s.fn}:{s.line} slot {s.slot} {repr s.cls}").toArray),
+      ("frozenOK", Json.bool G.frozenOK),
+      ("copiesOK", Json.bool G.copiesOK),
+      ("badStores", Json.arr (G.badStores.map fun s => Json.str s!"{s.cls}.{s.fn}:{s.line} {s.slot} {repr s.origin}").toArray)])
+  | _ => throw s!"unknown op {op}"
+
+def main : IO Unit := Wire.main handle
